@@ -82,11 +82,12 @@ def classOf (g : String) : Option GClass :=
           "variable_index_offset"] then some .frame
   else if g ∈ ["command_giver", "current_error_context", "csp", "sp", "num_objects_this_thread", "restrict_destruct",
                "last_verb"] then some .context
-  else if g ∈ ["in_error", "in_mudlib_error_handler", "mudlib_error_handler_context", "error_state", "catch_value"] then some .handler
+  else if g ∈ ["in_error", "in_mudlib_error_handler", "mudlib_error_handler_context", "handler_limit_state", "error_state",
+               "catch_value"] then some .handler
   else if g ∈ ["current_interactive"] then some .loop
   else if g ∈ ["cgsp", "command_giver_stack", "command_giver_held"] then some .balanced
   else if g ∈ ["num_varargs", "st_num_arg", "call_origin", "apply_ret_value", "global_lvalue_byte", "global_lvalue_range",
-               "global_lvalue_range_sv", "illegal_sentence_action", "inherit_file"] then some .scratch
+               "global_lvalue_range_sv", "lvalue_byte_in_buffer", "illegal_sentence_action", "inherit_file"] then some .scratch
   else if g ∈ ["apply_low_cache_hits", "apply_low_call_others", "apply_low_collisions", "apply_low_slots_used", "cache",
                "const0", "const0u", "const1", "control_stack", "efun_table", "end_of_stack", "start_of_stack", "master_ob",
                "obj_list", "obj_list_destruct", "proceeding_fatal_error", "saved_master_name", "saved_simul_name",
@@ -119,6 +120,15 @@ theorem tie_catch_value_order : Gen.C05.errorHandlerSetsCatchValueAfterHandler =
     so in the model every second-level error abandons the handler and `raiseInner` / `raise` clear the flag
     unconditionally; handlers that run catch() themselves are exercised on the real driver (`b-handler-script-*`). -/
 theorem tie_handler_flag : Gen.C05.errorHandlerKeepsFlagInsideHandler = true := by decide
+
+/-- the limit bits (ES_STACK_FULL / ES_MAX_EVAL_COST) of the error the master's handler runs for are recorded at the entry,
+    set again when the handler returns and re-instated for an error that abandons the handler — in the same guarded block
+    that clears the flag; an error caught by the handler's own catch sees its own state.  In the model nothing inside the
+    handler clears `errState` (`runHandlerN` completes no catch), so `raiseInner` / `raise` deliver it unchanged. -/
+theorem tie_handler_limit_state : Gen.C05.errorHandlerKeepsLimitState = true := by decide
+
+/-- variables of verification hooks (only mentioned inside `#ifdef NEOLITH_VERIF`) are not part of `coreGlobals` -/
+theorem tie_hook_globals_apart : ∀ g ∈ Gen.C05.hookGlobals, g ∉ Gen.C05.coreGlobals := by decide
 
 /-- the model's `raise` sets catch_value after the handler, in the state the handler returned -/
 theorem raise_sets_catch_value_after_handler (msg : String) (m m' : M)
